@@ -201,12 +201,18 @@ def docOf (k : Kind) (c : ComposeT) (p : PyVal) : PyVal :=
 legacy gates, and the three top-level classes have no validator that could refuse -/
 theorem header_current_ok : validateClass "common.Header" [(lit "version", .str currentVersion)] = .ok () := by
   decide +kernel
-theorem versionTuple_current : versionTuple (.str currentVersion) = .ok (.nums [Gen.VERSION.1, Gen.VERSION.2]) := by
+theorem versionTuple_current : versionTuple (.str currentVersion) = .ok (.nums Gen.VERSION) := by
   decide +kernel
 theorem top_ok (k : Kind) : validateClass k.className [] = .ok () := by cases k <;> decide +kernel
-theorem gate_header : gateHolds Gen.GATE_Header_deserialize [Gen.VERSION.1, Gen.VERSION.2] = true := by decide
-theorem gate_rpms : gateHolds Gen.GATE_Rpms_deserialize [Gen.VERSION.1, Gen.VERSION.2] = false := by decide
-theorem gate_compose : gateHolds Gen.GATE_Compose_deserialize [Gen.VERSION.1, Gen.VERSION.2] = false := by decide
+theorem gate_header_some : Gen.gate_common_Header_deserialize_0.eval? Gen.VERSION = some true := by decide
+theorem gate_rpms_some : Gen.gate_rpms_Rpms_deserialize_0.eval? Gen.VERSION = some false := by decide
+theorem gate_compose_some : Gen.gate_composeinfo_Compose_deserialize_0.eval? Gen.VERSION = some false := by decide
+theorem gate_header : gateHolds Gen.gate_common_Header_deserialize_0 Gen.VERSION = true := by
+  simp [gateHolds, gate_header_some]
+theorem gate_rpms : gateHolds Gen.gate_rpms_Rpms_deserialize_0 Gen.VERSION = false := by
+  simp [gateHolds, gate_rpms_some]
+theorem gate_compose : gateHolds Gen.gate_composeinfo_Compose_deserialize_0 Gen.VERSION = false := by
+  simp [gateHolds, gate_compose_some]
 
 theorem composeSerialize_toObj (c : ComposeT) (hv : composeValidate c.toObj = .ok ()) :
     composeSerialize c.toObj = .ok (composeDoc c) := by
@@ -265,7 +271,7 @@ theorem truthy_none : PyVal.none.truthy = false := rfl
 
 theorem headerDeserialize_reparse (k : Kind) (c : ComposeT) (p : PyVal) (hp : jsonRep p = true) :
     headerDeserialize k (reparse (docOf k c p))
-      = .ok (.str currentVersion, .nums [Gen.VERSION.1, Gen.VERSION.2]) := by
+      = .ok (.str currentVersion, .nums Gen.VERSION) := by
   unfold headerDeserialize reparse
   rw [getItem_canon _ _ (jsonRep_docOf k c p hp)]
   have h1 : getItem (docOf k c p) (lit "header") = .ok (headerDoc k) := rfl
@@ -288,7 +294,7 @@ theorem headerDeserialize_reparse (k : Kind) (c : ComposeT) (p : PyVal) (hp : js
 
 theorem composeDeserialize_reparse (k : Kind) (c : ComposeT) (p : PyVal) (hp : jsonRep p = true)
     (hn : composeValidate c.norm.toObj = .ok ()) :
-    composeDeserialize (.nums [Gen.VERSION.1, Gen.VERSION.2]) (PyVal.canon (payloadDoc k c p)) = .ok c.norm.toObj := by
+    composeDeserialize (.nums Gen.VERSION) (PyVal.canon (payloadDoc k c p)) = .ok c.norm.toObj := by
   unfold composeDeserialize
   simp only [gate_compose, Bool.false_eq_true, ↓reduceIte]
   rw [getItem_canon _ _ (jsonRep_payloadDoc k c p hp)]
